@@ -13,9 +13,12 @@ from ..compare import canon
 PROP = "C11"
 MODNAME = __name__
 
-IDENT = re.compile(r"[^\W\d_]\w*\Z")
-SKEYS = ["s", "t", "S"]
-VALUE_POOL = ["s", "t", "S", "u", "T", "{s}", '"s"', "{t}", '"S"', "s # t", 's # "x"', '"x" # s', "12", "s1", "ss", "{s} # t", "{{s}}", '{"s"}']
+# a bare identifier as in the dialect grammar (refparse.IDENT_RE): a letter, then letters / digits / '_' / '-' / ':' / '.'
+# (BibTeX macro names such as j-cacm, pub:ACM, acm.cs); what starts with a digit is a number or left open
+IDENT = re.compile(r"[^\W\d_][\w\-:.]*\Z")
+SKEYS = ["s", "t", "S", "j-cacm", "pub:ACM"]
+VALUE_POOL = ["s", "t", "S", "u", "T", "{s}", '"s"', "{t}", '"S"', "s # t", 's # "x"', '"x" # s', "12", "s1", "ss", "{s} # t", "{{s}}", '{"s"}',
+              "j-cacm", "pub:ACM", "{j-cacm}", "j-CACM", "j-cacm # s", "pub:acm", "j-cac"]
 
 
 def strip1(v):
@@ -133,7 +136,7 @@ DEF_VALUES = ['"Def"', "{Def {x}}", "other", '"a" # "b"', "12", "t"]
 
 
 def w_product(acc):
-    placements = ["none", "before", "after", "twice", "after-twice", "S-only"]
+    placements = ["none", "before", "after", "twice", "after-twice", "S-only", "punctuated-keys"]
     for pl, dv in itertools.product(placements, DEF_VALUES):
         for vals in list(itertools.product(VALUE_POOL, repeat=1)) + list(itertools.product(VALUE_POOL[:9], repeat=2)):
             d = []
@@ -143,6 +146,8 @@ def w_product(acc):
                 d += [_string("s", dv), GAP, _string("s", '"second"'), GAP]
             if pl == "S-only":
                 d += [_string("S", dv), GAP]
+            if pl == "punctuated-keys":
+                d += [_string("j-cacm", dv), GAP, _string("pub:ACM", '"ACM Press"'), GAP]
             d += [_entry("k1", list(vals)), GAP]
             if pl == "after":
                 d += [_string("s", dv), GAP]
@@ -200,9 +205,9 @@ def run(chk):
     for s in range(shards):
         tasks.append(("w_random", (n_rand // shards, harness.seed_for(chk.seed, PROP, s))))
     harness.pmap(chk.acc, MODNAME, tasks)
-    chk.acc.exhaustive["product"] = f"6 definition placements x {len(DEF_VALUES)} definition values x (all {len(VALUE_POOL)} value shapes for one field + 81 pairs for two fields)"
+    chk.acc.exhaustive["product"] = f"7 definition placements x {len(DEF_VALUES)} definition values x (all {len(VALUE_POOL)} value shapes for one field + 81 pairs for two fields)"
     chk.rule = (
-        "inputs = grammar derivations with @string keys from {s, t, S} (0-3 definitions each, before / after / between the "
+        "inputs = grammar derivations with @string keys from {s, t, S, j-cacm, pub:ACM} (0-3 definitions each, before / after / between the "
         "entries, duplicated) and field values from bare defined / undefined / case-variant keys, '{key}', '\"key\"', "
         "concatenations, numbers and ordinary values. Oracle (constructive): a field holds strip1(first definition's value) "
         "iff its source value is a bare identifier equal to a defined key, else strip1(its own value); strings stay at their "
